@@ -66,3 +66,14 @@ pub fn push_no_grow<T, A: core::alloc::Allocator>(v: &mut Vec<T, A>, x: T) {
         v.set_len(l + 1);
     }
 }
+
+/// `Vec::with_capacity` with a constant capacity. A capacity that depends on the
+/// data (e.g. `total_ones / rate + 1`) makes the allocation size symbolic, which
+/// the bounded model checker cannot encode. Capacity is not observable through
+/// `Vec`'s API (growth is transparent), so over-allocating a constant preserves
+/// behaviour; the request is asserted to fit.
+pub fn with_capacity_const<T>(cap: usize) -> Vec<T> {
+    assert!(cap <= CONST_CAP, "requested capacity exceeds the harness constant");
+    Vec::with_capacity_in(CONST_CAP, std::alloc::Global)
+}
+pub const CONST_CAP: usize = 160;
